@@ -161,6 +161,97 @@ def Builder.exportResources (B : Builder β) (opts : Opts) (ord : List (Term β)
     Option (List (Resource β)) :=
   mapOpt (B.exportResource opts fuel) (B.roots opts ord)
 
+/-! ## Export after patch `fix-c17-export-cycles` (suffix `V`: with the `inlined` set)
+
+  The repaired Go code threads a set `inlined map[rdf.BlankNodeIdentifier]bool` through the export:
+  `exportResourceStatements` marks its subject, inlines a once-referenced blank node only if it is not
+  marked yet, and `ExportResources` makes a second pass over the subject map for the once-referenced
+  blank nodes that were not reached. The set is modelled as a list (newest first); the two passes get
+  separate iteration orders `ord₁`, `ord₂` (Go may iterate the same map in two different orders). -/
+
+/-- `inlined[b] = true` -/
+def mark (V : List β) (b : β) : List β := if b ∈ V then V else b :: V
+
+/-- the marking at the top of exportResourceStatements -/
+def markSubject (V : List β) : Term β → List β
+  | .bnode b => mark V b
+  | _ => V
+
+/-- `opts.Inline && blankNodeReferences[b] == 1 && !inlined[b]` for an object -/
+def Builder.isInlV (B : Builder β) (opts : Opts) (V : List β) : Term β → Bool
+  | .bnode b => opts.inline && B.refCount b == 1 && !decide (b ∈ V)
+  | _ => false
+
+/-- the loop of exportResourceStatements; `rec` is the recursive call -/
+def Builder.foldStmtsV (B : Builder β) (opts : Opts)
+    (rec : Term β → List β → Option (List (Stmt β) × List β)) :
+    List (PO β) → List β → Option (List (Stmt β) × List β)
+  | [], V => some ([], V)
+  | po :: rest, V =>
+    if B.isInlV opts V po.2 then
+      match rec po.2 V with
+      | none => none
+      | some (lb, V1) =>
+        match Builder.foldStmtsV B opts rec rest V1 with
+        | none => none
+        | some (l, V2) => some (Stmt.anon po.1 lb :: l, V2)
+    else
+      match Builder.foldStmtsV B opts rec rest V with
+      | none => none
+      | some (l, V2) => some (Stmt.obj po.1 po.2 :: l, V2)
+
+/-- exportResourceStatements(subject, opts, inlined); `fuel` bounds the recursion depth -/
+def Builder.exportStatementsV (B : Builder β) (opts : Opts) :
+    Nat → Term β → List β → Option (List (Stmt β) × List β)
+  | 0, _, _ => none
+  | fuel + 1, s, V =>
+    Builder.foldStmtsV B opts (Builder.exportStatementsV B opts fuel) (B.stmts s) (markSubject V s)
+
+/-- SubjectResource / AnonResource decision of exportResource -/
+def Builder.resourceOf (B : Builder β) (opts : Opts) (s : Term β) (st : List (Stmt β)) : Resource β :=
+  match s with
+  | .bnode b => if opts.useAnon && B.refCount b == 0 then Resource.anon st else Resource.subject (some s) st
+  | _ => Resource.subject (some s) st
+
+/-- exportResource(s, opts, inlined) -/
+def Builder.exportResourceV (B : Builder β) (opts : Opts) (fuel : Nat) (s : Term β) (V : List β) :
+    Option (Resource β × List β) :=
+  (B.exportStatementsV opts fuel s V).map fun r => (B.resourceOf opts s r.1, r.2)
+
+/-- one `for subject := range rb.resourceBySubject` loop of ExportResources; `pick` is the loop's filter -/
+def Builder.foldRootsV (B : Builder β) (opts : Opts) (fuel : Nat) (pick : Term β → List β → Bool) :
+    List (Term β) → List β → Option (List (Resource β) × List β)
+  | [], V => some ([], V)
+  | s :: rest, V =>
+    if pick s V then
+      match B.exportResourceV opts fuel s V with
+      | none => none
+      | some (r, V1) =>
+        match Builder.foldRootsV B opts fuel pick rest V1 with
+        | none => none
+        | some (rs, V2) => some (r :: rs, V2)
+    else Builder.foldRootsV B opts fuel pick rest V
+
+/-- first loop: every subject that is not a once-referenced blank node (with Inline) -/
+def Builder.pick1 (B : Builder β) (opts : Opts) (s : Term β) (_ : List β) : Bool := !B.isInl opts s
+
+/-- second loop: the once-referenced blank nodes not reached so far -/
+def Builder.pick2 (B : Builder β) (opts : Opts) (s : Term β) (V : List β) : Bool := B.isInlV opts V s
+
+/-- ExportResources(opts), collected -/
+def Builder.exportResourcesV (B : Builder β) (opts : Opts) (ord1 ord2 : List (Term β)) (fuel : Nat) :
+    Option (List (Resource β)) :=
+  match B.foldRootsV opts fuel (B.pick1 opts) ord1 [] with
+  | none => none
+  | some (rs1, V1) =>
+    match B.foldRootsV opts fuel (B.pick2 opts) ord2 V1 with
+    | none => none
+    | some (rs2, _) => some (rs1 ++ rs2)
+
+/-- the public ExportResource(s, opts): a fresh `inlined` set -/
+def Builder.exportResourceV1 (B : Builder β) (opts : Opts) (fuel : Nat) (s : Term β) : Option (Resource β) :=
+  (B.exportResourceV opts fuel s []).map (·.1)
+
 /-! ## Flattening: NewTriples -/
 
 /-- Blank nodes of flattened output: a node of the input, or the `n`-th node made by `rdf.NewBlankNode()`. -/
@@ -237,6 +328,12 @@ def DBuilder.exportResources (D : DBuilder β) (opts : Opts) (gord : List (Optio
     (sord : Option (Term β) → List (Term β)) (fuel : Nat) : Option (List (DResource β)) :=
   (mapOpt (fun g => ((D.builder g).exportResources opts (sord g) fuel).map (fun rs => rs.map (fun r => (g, r)))) gord).map
     List.flatten
+
+/-- ToDatasetResourceWriter after the patch (each graph's builder runs the repaired ExportResources) -/
+def DBuilder.exportResourcesV (D : DBuilder β) (opts : Opts) (gord : List (Option (Term β)))
+    (sord1 sord2 : Option (Term β) → List (Term β)) (fuel : Nat) : Option (List (DResource β)) :=
+  (mapOpt (fun g => ((D.builder g).exportResourcesV opts (sord1 g) (sord2 g) fuel).map
+    (fun rs => rs.map (fun r => (g, r)))) gord).map List.flatten
 
 /-- DatasetResource.NewQuads for each element, in order -/
 def newQuadsList {β : Type} : List (DResource β) → Nat → List (DQuad (BN β)) × Nat
